@@ -1,5 +1,6 @@
 SPECIFICATION TraceSpec
 CONSTANTS
+  TraceFile = "trace.ndjson"
   Alphabet = {"a"}
   MaxLen = 0
   Pres <- PresQuick
